@@ -149,8 +149,15 @@ pub fn evaluate(d: &mut Driver, case: &Case) -> Outcome {
             Outcome { impl_rec, model_rec, impl_run: None, model_run: None, agree, skipped_fuel: false }
         }
         Kind::Run => {
-            let ir = imp::run_impl(&case.src, &case.path, case.fuel, 48);
             let mr = imp::parse_model_run(&model_rec).map(|x| x.0);
+            // the model runs first: a program it cannot finish (a list that contains itself, unbounded
+            // recursion) is excluded by the properties and would overflow the native stack here
+            if let Some(m) = &mr {
+                if matches!(m.end, imp::End::Fuel) {
+                    return Outcome { impl_rec: "skipped".into(), model_rec, impl_run: None, model_run: mr, agree: true, skipped_fuel: true };
+                }
+            }
+            let ir = imp::run_impl(&case.src, &case.path, case.fuel, 48);
             let skipped = matches!(ir.end, imp::End::Fuel);
             let agree = match &mr {
                 Some(m) => skipped || imp::runs_agree(&ir, m),
@@ -187,6 +194,9 @@ pub fn run_cases(
                     let mut i = w;
                     while i < cases.len() {
                         let case = &cases[i];
+                        if std::env::var("VERIF_TRACE_CASES").is_ok() {
+                            std::fs::write(format!("/tmp/apverif-last-case-{w}.txt"), &case.src).ok();
+                        }
                         let out = evaluate(&mut d, case);
                         st.evaluations += 1;
                         st.distinct.insert(fnv(&format!("{:?}|{}|{}", case.kind, case.src, case.aux)));
